@@ -68,6 +68,17 @@ def make_spec(st, idx, tier):
     for j in range(max_puts):
         seq.append(dict(k="poll", role="put_fault", put_fault=dict(at=j, kind=kinds[j % 2] if chance(rng, 0.5) else kinds[(j + 1) % 2]),
                         fresh_client=True, national_summary=ns))
+    # call history in one process: the same argument objects (model_parameters dict, config, frame) are passed again to
+    # fresh clients with other save_output choices -- an earlier request must not leak into a later one
+    if chance(rng, 0.6):
+        for j in range(3):
+            so2 = [o for o in OPTS if chance(rng, 0.5)]
+            seq.append(dict(k="poll", role="history", fresh_client=True, reuse_args=True, override=dict(save_output=so2)))
+    if not p["model_parameters"] or chance(rng, 0.15):
+        # the keyword's default value (a shared mutable dict in the signature) instead of an explicit argument
+        for j in range(2):
+            so2 = [o for o in OPTS if chance(rng, 0.5)]
+            seq.append(dict(k="poll", role="history", fresh_client=True, override=dict(save_output=so2, omit_model_parameters=True, model_parameters={})))
     for i, o in enumerate(seq):
         o["t"] = round(cut + 0.001 * (i + 1), 4)
     spec["ops"] = ops + seq
@@ -184,9 +195,12 @@ class Checker(C.BaseChecker):
                 for f in local:
                     if ("open", f) not in lw:
                         out.append(self.v("local_file_missing", f"{f} requested but not written", **flags))
-            self.n_base_puts = len(rec.puts)
-            self.base = rec
-            st.probes["base_puts:%d" % min(len(rec.puts), 9)] += 1
+            if role == "base":
+                self.n_base_puts = len(rec.puts)
+                self.base = rec
+                st.probes["base_puts:%d" % min(len(rec.puts), 9)] += 1
+            else:
+                st.probes["history_poll_with_reused_arguments"] += 1
         else:
             st.probes["put_fault_fired:" + fault["kind"]] += 1
             if rec.ok:
